@@ -81,3 +81,20 @@ Print Assumptions C17_reachable_pool_inv.
 Theorem C17_step_inv : forall s o s' id, pinv None s -> step s o = Ok (s', id) -> pinv None s'.
 Proof. exact step_inv. Qed.
 Print Assumptions C17_step_inv.
+
+(* A build or reply whose size fits no pooled buffer (more than 65675 bytes with margins) is
+   refused with an error and the frame keeps its buffer (fix D22); the function as it stood
+   sliced the nil buffer and panicked — reachable from the network during the handshake (C13). *)
+Theorem C17_oversized_refused : forall s f ty src dst sb msg apx nonce3 off ovh bc,
+  tier_of (required_size ty sb msg apx off ovh) = None ->
+  (cur_len s f < required_size ty sb msg apx off ovh)%nat ->
+  init_frame s f ty src dst sb msg apx nonce3 off ovh bc = Err 9.
+Proof. exact init_frame_oversized_refused. Qed.
+Print Assumptions C17_oversized_refused.
+
+Theorem C17_oversized_pinned_panics : forall s f ty src dst sb msg apx nonce3 off ovh bc,
+  tier_of (required_size ty sb msg apx off ovh) = None ->
+  (cur_len s f < required_size ty sb msg apx off ovh)%nat -> f_buf f = None ->
+  init_frame_pinned s f ty src dst sb msg apx nonce3 off ovh bc = Panic.
+Proof. exact init_frame_pinned_oversized_panics. Qed.
+Print Assumptions C17_oversized_pinned_panics.
